@@ -725,7 +725,10 @@ theorem front_step_other {γ : Type} (f : Front) (l : Bool) (r : Nat) (e : Elem 
       = (if !l && e.isData then [e] else []) := by
   cases l <;> cases e <;>
     simp [Front.stepElem, feed, Noir.Start.step, hm, Elem.isFar, Elem.isTerm, Elem.map, lefts, rights, farFree, Elem.isData] at hf ht ⊢
-  all_goals (generalize (Noir.Start.Frontier.update _ _ _).snd = o; cases o <;> simp [lefts, rights])
+  -- data: a pending watermark (announced frontier increase) may precede the element; watermarks: the update
+  all_goals first
+    | (cases hpnd : f.start.pending <;> simp [lefts, rights, hm]; done)
+    | (generalize (Noir.Start.Frontier.update _ _ _).snd = o; cases o <;> simp [lefts, rights, hm])
 
 theorem sideData_cons {γ : Type} (left l : Bool) (r : Nat) (e : Elem γ) (arr : List (Arrival γ)) :
     sideData left ((l, r, e) :: arr) = (if (l == left) && e.isData then [e] else []) ++ sideData left arr := by
